@@ -134,7 +134,11 @@ func (fr *Frame) trustedCall(st *State, fn *ssa.Function, args []Val, resT types
 			}
 			return Val{T: types.Typ[types.Bool], S: g.define("hp", "Bool", and(cs...))}, true
 		}
-		return Val{}, false
+		// symbolic prefix: only the length fact
+		g.note("trusted: strings.HasPrefix(s, p) implies len(p) <= len(s)")
+		r := g.declare("hasprefix", "Bool")
+		g.assume(implies(r, g.idxLe("(str_len "+args[1].S+")", "(str_len "+args[0].S+")")))
+		return Val{T: types.Typ[types.Bool], S: r}, true
 	case "unicode/utf8.DecodeRuneInString":
 		g.note("trusted: utf8.DecodeRuneInString returns (RuneError,0) on empty input, else 1 <= size <= min(4,len); ASCII bytes decode to themselves with size 1")
 		tup := resT.(*types.Tuple)
